@@ -132,6 +132,20 @@ _CFG_TABLE = None
 EXTENDED = os.environ.get("C09_EXTENDED", "1") == "1"
 
 
+def _src_const(path, pattern, default):
+    """a sizing constant of the families, read from the CURRENT source so that the family follows it"""
+    try:
+        m = re.search(pattern, (vlib.REPO / path).read_text())
+        return int(m.group(1)) if m else default
+    except OSError:
+        return default
+
+
+# entries per block of a blkarray_list (FSG history table); frames of a fresh feature buffer (acmod_alloc_buffers)
+HIST_BLKSIZE = _src_const("src/blkarray_list.c", r"#define\s+BLKARRAY_DEFAULT_BLKSIZE\s+(\d+)", 16380)
+FEAT_ALLOC = _src_const("src/acmod.c", r"acmod->n_mfc_alloc\s*=\s*(\d+)\s*;", 128)
+
+
 def config_table():
     """(name, type) of the configuration parameters, read from the current config_defs.h"""
     global _CFG_TABLE
@@ -270,7 +284,7 @@ def gen_history(rng, stats, maxcalls=40, profile=None):
     if EXTENDED:
         profile = profile or rng.weighted([("mixed", 24), ("queries", 12), ("lifecycle", 9), ("outoforder", 9), ("longaudio", 8),
                                            ("lattice", 9), ("config", 6), ("subobj", 5), ("twodec", 7), ("overlong", 3),
-                                           ("apiwide", 12)])
+                                           ("apiwide", 12), ("betweenutt", 7), ("blockcross", 3)])
     else:
         profile = profile or rng.weighted([("mixed", 46), ("queries", 18), ("lifecycle", 14), ("outoforder", 14), ("longaudio", 8)])
     stats["profiles"][profile] = stats["profiles"].get(profile, 0) + 1
@@ -463,7 +477,173 @@ def gen_history(rng, stats, maxcalls=40, profile=None):
                 emit(f"aladd {k} {rng.choice([1, 5, 100])} {rng.choice(['a', 'go'])}", "aladd")
                 kill_ali_of(k)
 
-    if profile == "overlong":
+    def one_utterance(total, mode, fmt="i16", kind="bu"):
+        """start, `total` samples of the recording (one full_utt block or chunks), end"""
+        emit("start", "start")
+        t.utt, t.blocks, t.full, t.everutt, t.pos, t.speech = "s", 0, False, True, 0, 0
+        t.invalidate("result"); t.invalidate("align")
+        if mode == "full":
+            emit(f"proc {fmt} go 0 {total} 0 1", f"proc-{kind}-full")
+            t.blocks, t.full = 1, True
+        else:
+            chunk = rng.choice([4096, 8000, 16000, GOLEN])
+            pos = 0
+            while pos < total:
+                ln = min(chunk, total - pos)
+                emit(f"proc {fmt} go {pos % GOLEN} {ln} 0 0", f"proc-{kind}-stream")
+                pos += ln
+                t.blocks += 1
+        t.speech = total
+        t.dagfresh = False
+        t.invalidate("align")
+        emit("end", "end")
+        t.utt = "e"
+
+    def result_queries(qs):
+        """the result queries of the main loop, emitted in the given order (same bookkeeping as there)"""
+        for q in qs:
+            if q in ("align", "json 1", "json 2"):
+                emit(q, q.replace(" ", ""))
+                t.invalidate("align")
+            elif q in ("hyp", "json 0", "nframes", "prob"):
+                emit(q, q.replace(" ", ""))
+            elif q == "lattice":
+                emit(q, q)
+                t.lattice_call(objctr)
+            elif q == "seg":
+                k = free_slot(t.seg)
+                if k is not None:
+                    emit(f"seg {k}", "seg")
+                    t.seg[k] = ("S", True)
+            elif q == "alretain":
+                fr = [k for k in range(NSLOT) if k not in t.aln]
+                if fr:
+                    k = rng.choice(fr)
+                    emit(f"alretain {k}", "alretain")
+                    t.aln.add(k)
+                    t.invalidate("align")
+            elif q == "aliter":
+                k = free_slot(t.ali)
+                if k is not None:
+                    emit(f"aliter {k} -1 {rng.choice(['words', 'phones', 'states'])}", "aliter")
+                    t.invalidate("align")
+                    t.ali[k] = (-1, True)
+
+    def between_utterances():
+        """between-utterances family: an utterance is decoded and ended (shorter than / around / longer than the fresh
+        feature buffer of FEAT_ALLOC frames), optionally its alignment / lattice / JSON is made, then ONE OR TWO of the
+        documented calls that are allowed between utterances and rebuild or replace something the result queries use
+        (decoder_reinit_feat: fresh feature buffers - the ended utterance can no longer be rewound, so the second pass of
+        decoder_alignment is REFUSED; decoder_reinit; MLLR; CMN; dictionary; grammar), then the result queries - some
+        of them now refused - and then valid calls again: next utterance, alignment again, release."""
+        nfa = FEAT_ALLOC
+        frames = rng.choice([nfa // 3, nfa - 1, nfa, nfa + 1, nfa + 2, nfa + 40, nfa + 40, 2 * nfa + 10, 2 * nfa + 10, 3 * nfa])
+        total = min(frames * 160 + 500, 3 * GOLEN)
+        if rng.chance(0.75):
+            # a grammar that accepts every prefix of the recording: a hypothesis exists at every utterance length
+            emit("jsgf " + rng.choice(["star", "star", "opt", "wide"]), "jsgf-ok")
+            t.search = True
+            t.invalidate("result")
+        else:
+            total = max(total, GOLEN)      # `go forward ten meters` is only accepted once the whole recording was heard
+        one_utterance(total, rng.choice(["full", "stream"]), "f32" if rng.chance(0.15) else "i16")
+        # (an alignment made BEFORE the call is reused afterwards - nothing is rewound: the rarer variant)
+        pre = [q for q in ["hyp", "lattice"] if rng.chance(0.3)] + [q for q in ["align", "json 1", "alretain"] if rng.chance(0.07)]
+        result_queries(pre)
+        nb = rng.choice([1, 1, 1, 2])
+        for _ in range(nb):
+            bc = rng.weighted([("reinitfeat", 12), ("reinit", 3), ("mllrapply", 2), ("setcmn", 2), ("getcmn", 1), ("logfile", 1),
+                               ("addword", 2), ("cfg", 1), ("jsgf", 2), ("lookup", 1)])
+            stats["blocks"]["between-" + bc] = stats["blocks"].get("between-" + bc, 0) + 1
+            if bc == "reinitfeat":
+                emit("reinitfeat", "reinitfeat")
+            elif bc == "reinit":
+                emit("reinit " + rng.choice(["null", "same"]), "reinit-null")
+                t.search = t.eff_gram() == "good"
+                t.utt = "i"
+                t.invalidate("result"); t.invalidate("align")
+            elif bc == "mllrapply":
+                emit("mllrapply null", "mllrapply-null")
+            elif bc == "setcmn":
+                emit("setcmn " + rng.choice(["ok", "short", "zero"]), "setcmn")
+            elif bc == "getcmn":
+                emit(f"getcmn {rng.below(2)}", "getcmn")
+            elif bc == "logfile":
+                emit("logfile null", "logfile")
+            elif bc == "addword":
+                emit(f"addword new{rng.below(4)} ok 0", "addword")
+            elif bc == "cfg":
+                emit(f"cfg float {rng.choice(CFG_KEYS_F)} {rng.choice(['1e-20', '1e-5', '0.5'])}", "cfg-set")
+            elif bc == "lookup":
+                emit("lookup " + rng.choice(["known", "unknown", "new0"]), "lookup")
+            else:
+                emit("jsgf " + rng.choice(["go", "move", "star"]), "jsgf-ok")
+                t.search = True
+                t.invalidate("result")
+        post = [q for q in ["align", "json 1", "json 2", "alretain", "aliter", "hyp", "seg", "json 0", "lattice"] if rng.chance(0.45)]
+        if not any(q in post for q in ("align", "json 1", "json 2", "alretain", "aliter")):
+            post.insert(0, rng.choice(["align", "json 1", "json 2"]))
+        rng.shuffle(post)
+        result_queries(post)
+        # ... and then valid calls again
+        nxt = rng.choice(["utt", "utt", "align", "free", "reinitfeat", "tail"])
+        if nxt == "utt" and t.search:
+            one_utterance(rng.choice([8000, 21000, GOLEN]), rng.choice(["full", "stream"]))
+            result_queries([q for q in ["hyp", "align", "json 1"] if rng.chance(0.5)])
+        elif nxt == "align":
+            result_queries(["align", "json 2"])
+        elif nxt == "reinitfeat":
+            emit("reinitfeat", "reinitfeat")
+            result_queries([rng.choice(["align", "json 1"])])
+        elif nxt == "free" and t.refs == 1:
+            emit("free", "free")
+            t.refs, t.alive = 0, False
+            t.created = t.nocfg = False
+            t.invalidate("result"); t.invalidate("align")
+
+    def block_crossing():
+        """block-crossing family: containers of the search that grow in blocks - the FSG history table is a blkarray_list
+        of HIST_BLKSIZE entries per block (constant read from src/blkarray_list.c).  A bushy looping grammar and an
+        utterance sized from that constant take the table to just below / just across / well across its first block
+        boundary (and across the second one); then the table is reset and reused: next utterance (short, or crossing
+        again), new grammar, re-initialisation, release.  The harness reports entries and blocks at decoder_end_utt."""
+        g = rng.choice(["wide", "wide", "wide", "star"])
+        emit("jsgf " + g, "jsgf-ok")
+        t.search = True
+        t.invalidate("result")
+        epf = 36 if g == "wide" else 14       # entries per frame seen with these grammars on the recording
+        big = [1.15, 1.15, 1.6, 2.2] + ([3.3, 5.0] if maxcalls > 40 else [])
+        nutt = rng.choice([1, 2, 2, 3])
+        for u in range(nutt):
+            f = rng.choice(big if u == 0 and rng.chance(0.7) else [0.2, 0.9] + big)
+            frames = int(HIST_BLKSIZE * f / epf) + 1
+            one_utterance(frames * 160, rng.choice(["full", "stream", "stream"]), kind="bc")
+            stats["blocks"]["blockcross-%s-x%.2f" % (g, f)] = stats["blocks"].get("blockcross-%s-x%.2f" % (g, f), 0) + 1
+            result_queries([q for q in ["hyp", "json 0", "seg", "nframes"] if rng.chance(0.3)])
+            r = rng.choice(["next", "next", "gram", "reinit", "free", "tail"]) if u == nutt - 1 else "next"
+            if r == "gram":
+                emit("jsgf " + rng.choice(["go", "wide"]), "jsgf-ok")
+                t.invalidate("result")
+            elif r == "reinit":
+                emit("reinit null", "reinit-null")
+                t.search = t.eff_gram() == "good"
+                t.utt = "i"
+                t.invalidate("result"); t.invalidate("align")
+            elif r == "free" and t.refs == 1:
+                emit("free", "free")
+                t.refs, t.alive = 0, False
+                t.created = t.nocfg = False
+                t.invalidate("result"); t.invalidate("align")
+
+    if profile == "betweenutt":
+        do_init(force_good=True)
+        between_utterances()
+        n = min(len(ops) + rng.range(2, 10), max(maxcalls, len(ops) + 2))
+    elif profile == "blockcross":
+        do_init(force_good=True)
+        block_crossing()
+        n = min(len(ops) + rng.range(1, 6), max(maxcalls, len(ops) + 1))
+    elif profile == "overlong":
         do_init(force_good=True)
         if rng.chance(0.25):
             # the alignment outlives its decoder (it retains the dictionary-to-senone mapping)
@@ -1520,6 +1700,9 @@ def api_map():
     return _API_MAP
 
 
+ITER_MAKERS = ("seg", "hypseg", "aliter", "alichild", "aligoto", "lnode", "llink")
+
+
 def model_replay(tr):
     """run the model on a transcript; -> list of (index in tr, model call, model ret, model state, class)"""
     lines, idx = [], []
@@ -1544,7 +1727,11 @@ def model_replay(tr):
         fb = st_field(parts[1], "fr") if len(parts) > 1 else None
         nr = re.match(r"n=(\d+)", ret or "")
         cw = [x for x in call.split() if not x.startswith("@")]
-        m = f"F {fa or 0} {fb or 0} " + (f"N {nr.group(1)} " if nr and cw[0] == "proc" else "") + word_tokens(cw) + m
+        # the number of further elements a freshly created (or repositioned) iterator will deliver, observed ONCE by the
+        # harness: from then on the model predicts every ..._next of that iterator (Model/ProtocolPred.lean)
+        kr = re.search(r"(?:^| )k=(\d+)", ret or "")
+        kt = f"K {kr.group(1)} " if kr and cw[0] in ITER_MAKERS else ""
+        m = f"F {fa or 0} {fb or 0} " + (f"N {nr.group(1)} " if nr and cw[0] == "proc" else "") + kt + word_tokens(cw) + m
         lines.append(m)
         idx.append(i)
     rc, out, err = run_model("\n".join(lines) + "\n" if lines else "")
@@ -1571,6 +1758,7 @@ def compare(tr):
         ce = Ent((call, cls))
         ce.fns, ce.kind = (getattr(tr[i], "fns", ()) if ret is not None else ()), kind
         ce.ret = mret
+        ce.idx = i
         classes.append(ce)
         if ret is not None and not cls.startswith("oop") and cls != "bad":
             # the functions the call really reached must be among those the model's mapping names for its kind
@@ -1628,6 +1816,7 @@ def judge(c, binp, ops, label, stats, shrink=True):
             stats["returns"][key] = stats["returns"].get(key, 0) + 1
     if kind is None and not div:
         account_api(stats, tr, classes)
+        account_families(stats, tr)
         return True
     if div and div[0][0].startswith("out-of-protocol"):
         c.oblige(f"generated history is inside the protocol ({label})", False, {"ops": ops, "at": div[0][1:]})
@@ -1705,6 +1894,51 @@ def truncate_at_oop(binp, ops, stats, max_rounds=4):
     return ops, rc, tr, err, div, classes
 
 
+TWIN_SKIP_KINDS = ("setGrammar",)
+
+
+def refused_indices(tr, classes, nops):
+    """transcript indices (< nops) of the calls the property says are no-ops: listed out-of-order calls (class `ooo`) and
+    grammar / alignment-text loads that were refused with an error.  -> (indices, all of them listed out-of-order?)"""
+    idx, only_ooo = [], True
+    for ce in classes:
+        j = getattr(ce, "idx", None)
+        if j is None or j >= nops or tr[j][1] is None or tr[j][1].startswith("skip"):
+            continue
+        cls = ce[1]
+        if cls.startswith("ooo"):
+            idx.append(j)
+        elif cls.startswith("in") and getattr(ce, "kind", "") in TWIN_SKIP_KINDS and getattr(ce, "ret", "") == "err":
+            idx.append(j)
+            only_ooo = False
+    return idx, only_ooo
+
+
+def twin_check(binp, ops, tr, classes):
+    """Error recovery, implementation against implementation: replay the history WITHOUT its refused calls on a fresh
+    process (the twin decoder that never saw them) and compare what every remaining call returned and the state after it
+    (C09_pred_refused_skippable is the model-side statement).  -> None (nothing to skip), or
+    (number skipped, first difference or None, only listed out-of-order calls were skipped)"""
+    nops = len(ops)
+    R, only_ooo = refused_indices(tr, classes, nops)
+    if not R:
+        return None
+    Rs = set(R)
+    twin_ops = [o for j, o in enumerate(ops) if j not in Rs]
+    rc2, tr2, err2 = run_history(binp, twin_ops)
+    kept = [j for j in range(len(tr)) if j not in Rs]
+    if failure_kind(rc2, tr2, err2) is not None or len(tr2) != len(kept):
+        return len(R), {"what": "the twin history did not replay cleanly", "failure": failure_kind(rc2, tr2, err2),
+                        "twin_ops": twin_ops, "lengths": [len(tr2), len(kept)]}, only_ooo
+    for k, j in enumerate(kept):
+        if tuple(tr[j][:3]) != tuple(tr2[k][:3]):
+            return len(R), {"what": "after refused calls the decoder does not behave like the twin that skipped them",
+                            "call": tr[j][0], "index": j, "with_refused_calls": list(tr[j][:3]),
+                            "twin": list(tr2[k][:3]), "refused_calls_skipped": [tr[x][0] for x in R],
+                            "twin_ops": twin_ops}, only_ooo
+    return len(R), None, only_ooo
+
+
 CLOSED_STATE = ("D=0 it=0,0,0 lr=0 ar=0 ln=0,0 ub=- || D=0 it=0,0,0 lr=0 ar=0 ln=0,0 ub=- || "
                 "cf=0 lm=0 fe=0 ft=0 ml=0 so=0")
 
@@ -1712,6 +1946,184 @@ CLOSED_STATE = ("D=0 it=0,0,0 lr=0 ar=0 ln=0,0 ub=- || D=0 it=0,0,0 lr=0 ar=0 ln
 def new_stats():
     return {"profiles": {}, "calls": {}, "blocks": {}, "classes": {}, "ooo": {}, "returns": {}, "failures": {},
             "calls_executed": 0, "skipped_calls": 0, "kinds": {}, "kind_returns": {}, "kind_fns": {}, "fn_calls": {}}
+
+
+NEXT_KINDS = ("segNext", "hypNext", "aliNext", "lnodeNext", "llinkNext")
+
+
+# ---------------------------------------------------------------------------------------------
+# block-crossing class, second half: the container itself against its model (Model/BlkArray.lean, Props/C09Blk.lean)
+
+def gen_blk_ops(rng, real_size=False):
+    """one op sequence for the real blkarray_list and its model: table shapes with tiny blocks (every boundary is hit
+    exactly: k-1, k, k+1, 2k, m*k, m*k+1 elements ...) or, `real_size`, the block size of the source with a few rows"""
+    def shape():
+        return (rng.choice([2, 3, 4]), HIST_BLKSIZE) if real_size else (rng.choice([1, 2, 3, 4, 7]), rng.choice([1, 2, 3, 5, 16]))
+    m, k = shape()
+    ops = [f"new {m} {k}"]
+    for _ in range(rng.range(3, 6 if real_size else 12)):
+        r = rng.below(10)
+        if r < 6:
+            n = rng.choice([0, 1, 1, k - 1, k, k + 1, 2 * k - 1, 2 * k, 2 * k + 1, m * k - 1, m * k, m * k + 1, rng.range(0, m * k + 3)])
+            if real_size:
+                n = rng.choice([1, 1, 2, k - 1, k, k + 1, k + 1, 2 * k, 2 * k + 1])
+            ops.append(f"app {max(n, 0)}")
+        elif r < 9 or real_size:
+            ops.append("reset")
+        else:
+            m, k = shape()
+            ops += ["free", f"new {m} {k}"]
+    if rng.chance(0.5):
+        ops.append(rng.choice(["reset", "free"]))
+    return ops
+
+
+def run_blk(binp, ops, timeout=120):
+    """-> (implementation rc, implementation lines, stderr, model lines)"""
+    import subprocess
+    rc, out, err = vlib.run_bin(binp, stdin_text="\n".join(ops) + "\n", timeout=timeout, leaks=True)
+    path = DRIVER or str(vlib.driver_path())
+    r = subprocess.run([path, "c09blk"], input=("\n".join(ops) + "\n").encode(), stdout=subprocess.PIPE, stderr=subprocess.PIPE,
+                       timeout=timeout)
+    if r.returncode != 0:
+        raise RuntimeError("ssdriver c09blk failed: " + r.stderr.decode(errors="replace")[-500:])
+    return rc, out.rstrip("\n").split("\n") if out else [], err, r.stdout.decode().rstrip("\n").split("\n")
+
+
+def blk_failure(rc, lines, err, mlines, nops):
+    """None, or (kind, implementation_violates_property, detail)"""
+    if rc != 0 or len(lines) != nops:
+        if "LeakSanitizer" in err:
+            kind = "leak"
+        else:
+            m = re.search(r"ERROR: AddressSanitizer: ([a-zA-Z0-9-]+)", err)
+            kind = "asan:" + m.group(1) if m else ("assert" if "Assertion" in err else ("ubsan" if "runtime error:" in err else f"exit code {rc}"))
+        return kind, True, err[-1500:]
+    for i, (a, b_) in enumerate(zip(lines, mlines)):
+        if a != b_:
+            return "divergence", False, {"op_index": i, "implementation": a, "model": b_}
+    return None
+
+
+def blk_probe_family(c, stats):
+    """drives src/blkarray_list.c and the model with the same op sequences; records violations / obligations"""
+    binp = vlib.build_harness("h_c09blk")
+    import shutil
+    dst = os.path.join(str(c.scratch), "h_c09blk")
+    shutil.copy2(str(binp), dst)
+    rng = vlib.Rng(((c.seed + 7) * 0x9E3779B97F4A7C15) & (2 ** 64 - 1))
+    n_small, n_real = (60, 2) if c.tier == "quick" else (1500, 12)
+    seqs = [["new 3 2", "app 5", "reset", "app 1", "reset", "app 7", "free", "new 1 1", "app 2", "reset", "reset", "app 1"],
+            [f"new 3 {HIST_BLKSIZE}", f"app {HIST_BLKSIZE}", "app 1", "reset", f"app {HIST_BLKSIZE + 1}", "free"]]
+    seqs += [gen_blk_ops(rng.fork()) for _ in range(n_small)] + [gen_blk_ops(rng.fork(), True) for _ in range(n_real)]
+    cover = {"sequences": len(seqs), "ops": 0, "appends_refused_table_full": 0, "resets_by_rows_in_use": {}, "appends_taking_a_new_row": 0,
+             "max_rows_in_use": 0, "real_block_size_sequences": n_real + 1, "block_size_of_source": HIST_BLKSIZE}
+    bad = []
+    for ops in seqs:
+        rc, lines, err, mlines = run_blk(dst, ops)
+        f = blk_failure(rc, lines, err, mlines, len(ops))
+        cover["ops"] += len(ops)
+        prev_cr = -1
+        for o, l in zip(ops, lines):
+            m = re.search(r"cr=(-?\d+)", l)
+            cr = int(m.group(1)) if m else -1
+            if o.startswith("app") and "ret=-1" in l:
+                cover["appends_refused_table_full"] += 1
+            if o.startswith("app") and cr > prev_cr:
+                cover["appends_taking_a_new_row"] += 1
+            if o in ("reset", "free"):
+                d = cover["resets_by_rows_in_use"]
+                d[str(prev_cr + 1)] = d.get(str(prev_cr + 1), 0) + 1
+            cover["max_rows_in_use"] = max(cover["max_rows_in_use"], cr + 1)
+            prev_cr = cr if not o.startswith("new") and o != "free" else -1
+        if f is None:
+            continue
+        kind = f[0]
+
+        def fails(sub):
+            if not sub or not sub[0].startswith("new"):
+                return False
+            r2 = run_blk(dst, sub)
+            f2 = blk_failure(*r2, len(sub))
+            return f2 is not None and f2[0] == kind
+        small = vlib.ddmin(ops, fails, max_tests=80) if len(ops) > 1 else ops
+        rc, lines, err, mlines = run_blk(dst, small)
+        f = blk_failure(rc, lines, err, mlines, len(small)) or f
+        bad.append(kind)
+        replay = {"kind": "blkarray_list op sequence (harness/h_c09blk.c; model driver `c09blk`)", "blk_ops": small,
+                  "implementation_lines": lines[-6:], "model_lines": mlines[-6:], "failure": f[0], "detail": f[2],
+                  "implementation_violates_property": f[1],
+                  "what": "the block-wise growing table of the search history (src/blkarray_list.c) aborted / leaked / reported a memory "
+                          "error on a sequence of appends and resets" if f[1] else
+                          "counters or row pointers of src/blkarray_list.c differ from the model after an operation",
+                  "how_to_rerun": "python3 tools/check.py C09 --replay <this file>"}
+        c.violation(replay, f[1], finding_key=("blkarray:" + f[0]) if f[1] else None)
+        if len(bad) >= 3:
+            break
+    c.oblige("block-crossing class, the container itself: src/blkarray_list.c (_blkarray_list_init / append / reset / free, ASan/UBSan/LSan, "
+             "asserts on) and the model Model/BlkArray.lean (theorems C09_blk_* : reset after ANY history restores the initial state) "
+             "agree on counters and row pointers after every operation of every generated sequence - tiny blocks hitting every "
+             "boundary exactly, and the block size of the source - and nothing is left allocated at exit",
+             not bad, {"failures": bad})
+    c.cov.update({"blkarray_list_against_model": cover})
+    return not bad
+
+
+def account_families(stats, tr):
+    """what the between-utterances and block-crossing families really reached (measured on the transcript of a
+    cleanly replayed history, per decoder instance): alignment requests REFUSED after decoder_reinit_feat (the
+    ended utterance no longer fits the fresh feature buffer) and whether valid calls followed; utterances by
+    number of history-table blocks in use at decoder_end_utt, and which call reset a table of >= 2 blocks"""
+    fam = stats.setdefault("families", {"align_refused_after_reinit_feat": 0, "of_which_followed_by_more_calls_on_that_decoder": 0,
+                                        "align_reused_after_reinit_feat": 0, "align_after_reinit_feat_within_fresh_buffer": 0,
+                                        "utterances_by_history_blocks": {}, "max_history_entries": 0,
+                                        "reset_of_a_multi_block_history_by": {}, "history_block_size": HIST_BLKSIZE,
+                                        "fresh_feature_buffer_frames": FEAT_ALLOC})
+    rf, blocks, pending = [False, False], [0, 0], [False, False]
+    for call, ret, st in tr:
+        if ret is None or ret.startswith("skip"):
+            continue
+        w = call.split()
+        i = 0
+        if w[0].startswith("@"):
+            i = 1 if w[0] == "@1" else 0
+            w = w[1:]
+        if not w:
+            continue
+        op = w[0]
+        mine = (st or "").split(" || ")
+        mine = mine[i] if len(mine) > i else ""
+        if pending[i] and op not in ("exit",):
+            fam["of_which_followed_by_more_calls_on_that_decoder"] += 1
+            pending[i] = False
+        if op == "reinitfeat" and ret.startswith("ok"):
+            rf[i] = True
+        elif op in ("start", "reinit", "reinitcfg", "init", "initcfg") and not ret.startswith("err"):
+            rf[i] = False
+        if op == "end" and "hb=" in ret:
+            hb = int(re.search(r"hb=(-?\d+)", ret).group(1))
+            he = int(re.search(r"he=(-?\d+)", ret).group(1))
+            d = fam["utterances_by_history_blocks"]
+            d[str(hb)] = d.get(str(hb), 0) + 1
+            fam["max_history_entries"] = max(fam["max_history_entries"], he)
+            blocks[i] = hb
+        elif blocks[i] >= 2 and op in ("start", "reinit", "reinitcfg", "jsgf", "jsgffile", "fsg", "aligntext", "free") \
+                and not ret.startswith("err") and (op != "free" or ret.startswith("rc=0")):
+            d = fam["reset_of_a_multi_block_history_by"]
+            d[op] = d.get(op, 0) + 1
+            blocks[i] = 0
+        if rf[i] and (op in ("align", "alretain") or (op == "json" and len(w) > 1 and w[1] != "0") or
+                      (op in ("aliter", "jsonhold") and len(w) > 2 and w[2] == "-1" and op == "aliter") or
+                      (op == "jsonhold" and len(w) > 2 and w[2] != "0")):
+            frames = int(st_field(mine, "fr") or 1) - 1
+            if "ru=1" in ret:
+                fam["align_reused_after_reinit_feat"] += 1
+            elif frames <= FEAT_ALLOC:
+                fam["align_after_reinit_feat_within_fresh_buffer"] += 1
+            elif ret.startswith("null") and st_field(mine, "a") == "1":
+                # an aligner was made (there were words to align) and the second pass was refused
+                fam["align_refused_after_reinit_feat"] += 1
+                pending[i] = True
 
 
 def account_api(stats, tr, classes):
@@ -1730,6 +2142,14 @@ def account_api(stats, tr, classes):
             rc = "documented-error (listed out-of-order call)"
         d = stats["kind_returns"].setdefault(k, {})
         d[rc] = d.get(rc, 0) + 1
+        if k in NEXT_KINDS:
+            # was the outcome of this ..._next call predicted from the element count observed when the iterator was made?
+            d2 = stats.setdefault("next_calls", {}).setdefault(k, {"predicted_from_count": 0, "of_which_NULL": 0, "echoed": 0})
+            if cls.split()[-1] == "L":
+                d2["predicted_from_count"] += 1
+                d2["of_which_NULL"] += getattr(ce, "ret", "") == "null"
+            else:
+                d2["echoed"] += 1
     for e in tr:
         if e[1] is not None and not e[1].startswith("skip"):
             for f in getattr(e, "fns", ()):
@@ -1779,6 +2199,7 @@ def check(c):
             if binp_pool is None:
                 binp_pool = pin_harness(c.scratch, pool=True)
             ok = judge(c, binp_pool, ops, f"corpus {f.name} (pass-through pool)", stats) and ok
+    ok = blk_probe_family(c, stats) and ok
     n = 300 if c.tier == "quick" else 4000
     maxcalls = 40 if c.tier == "quick" else 60
     # vlib.Rng streams of neighbouring seeds are shifted copies of each other: derive a decorrelated root
@@ -1807,6 +2228,7 @@ def check(c):
             hs[i], rc, tr, err, _, _ = truncate_at_oop(b, hs[i], stats)
         return i, rc, tr, err
     bad, distinct, groups = [], set(), {}
+    twins, twin_max = [], (60 if c.tier == "quick" else 600)
     with cf.ThreadPoolExecutor(workers) as ex:
         for i, rc, tr, err in ex.map(quick, range(n)):
             distinct.add(hash(tuple(hs[i])))
@@ -1830,6 +2252,9 @@ def check(c):
                         key = call.split()[0] + ":" + canon_ret(ret)
                         stats["returns"][key] = stats["returns"].get(key, 0) + 1
                 account_api(stats, tr, classes)
+                account_families(stats, tr)
+                if len(twins) < twin_max and refused_indices(tr, classes, len(hs[i]))[0]:
+                    twins.append((i, tr, classes))
             elif div and div[0][0].startswith("out-of-protocol"):
                 # still out-of-protocol after cutting several times: dropped, counted, no alarm
                 stats["generator_artefacts_dropped"] = stats.get("generator_artefacts_dropped", 0) + 1
@@ -1849,6 +2274,31 @@ def check(c):
         i = min(groups[key], key=lambda j: len(hs[j]))
         if not judge(c, binp_pool if on_pool[i] else binp, hs[i], f"generated history {i}, class {key}", stats, shrink=True):
             ok = False
+    # --- error recovery: every refused call removed, replayed on a fresh process, compared call by call
+    def run_twin(t):
+        i, tr, classes = t
+        return i, twin_check(binp_pool if on_pool[i] else binp, hs[i], tr, classes)
+    tw = {"histories_with_refused_calls_replayed_without_them": 0, "refused_calls_skipped": 0, "differences": []}
+    with cf.ThreadPoolExecutor(workers) as ex:
+        for i, res in ex.map(run_twin, twins):
+            if res is None:
+                continue
+            nsk, diff, only_ooo = res
+            tw["histories_with_refused_calls_replayed_without_them"] += 1
+            tw["refused_calls_skipped"] += nsk
+            if diff is not None:
+                tw["differences"].append(diff)
+                c.violation({"kind": "API call history (one call per line; harness/h_c09.c) and its twin without the refused calls",
+                             "ops": hs[i], "twin_difference": diff,
+                             "implementation_violates_property": only_ooo,
+                             "what": "a refused call was not a no-op: the calls after it return something else / lead to another "
+                                     "state than on a decoder that never saw it"}, only_ooo, tag="twin")
+    c.oblige("error recovery, implementation against implementation: every history with refused calls (listed out-of-order calls, "
+             "refused grammar loads), replayed on a fresh process WITHOUT them, returns the same and shows the same state after "
+             "every remaining call (model side: C09_pred_refused_skippable)", not tw["differences"] and
+             tw["histories_with_refused_calls_replayed_without_them"] > 0,
+             {k: (v if k != "differences" else v[:2]) for k, v in tw.items()})
+    stats["twin"] = {k: (v if k != "differences" else len(v)) for k, v in tw.items()}
     stats["failures"] = counted
     known = {kf.get("key") for kf in vlib.known_findings() if kf.get("property") == "C09" and kf.get("status", "open") == "open"}
     unknown = {k: v for k, v in stats["failures"].items() if k not in known}
@@ -1878,6 +2328,27 @@ def check(c):
              "alike; LeakSanitizer then sees what is still allocated)", not stats.get("closed_nonempty"),
              {"histories_closed": stats.get("closed_total", 0), "with_empty_ledger": stats.get("closed_empty", 0),
               "nonempty": stats.get("closed_nonempty", [])[:3]})
+    fam = stats.get("families", {})
+    c.oblige("between-utterances family (also in corpus/C09/reinit-feat-then-refused-alignment.ops): at least one alignment request "
+             "was REFUSED after decoder_reinit_feat (the ended utterance is longer than the fresh feature buffer, acmod_rewind "
+             "fails after the aligner took the alignment) and further calls on that decoder followed and replayed cleanly",
+             fam.get("of_which_followed_by_more_calls_on_that_decoder", 0) > 0, {k: v for k, v in fam.items() if k.startswith("align")
+                                                                                 or k.startswith("of_which") or k.startswith("fresh")})
+    c.oblige("block-crossing family (also in corpus/C09/history-table-crosses-block.ops): at least one utterance filled more than "
+             "one block of the search history table (blkarray_list, block size read from src/blkarray_list.c) and the table was then "
+             "reset by the next utterance AND by the last release, and the process ended without a leak report",
+             fam.get("reset_of_a_multi_block_history_by", {}).get("start", 0) > 0
+             and fam.get("reset_of_a_multi_block_history_by", {}).get("free", 0) > 0,
+             {k: v for k, v in fam.items() if "history" in k})
+    c.cov.update({"between_utterances_and_block_crossing_families": fam})
+    nx = stats.get("next_calls", {})
+    c.oblige("the outcome of every seg_iter_next / alignment_iter_next / ps_latnode_iter_next / ps_latlink_iter_next call executed "
+             "in-protocol was PREDICTED by the model from the element count observed once when the iterator was created "
+             "(Model/ProtocolPred.lean `predLast`; only hyp_iter_next is still echoed), and each family ran off its end at least once",
+             all(nx.get(k, {}).get("echoed", 1) == 0 and nx.get(k, {}).get("of_which_NULL", 0) > 0
+                 for k in NEXT_KINDS if k != "hypNext"), nx)
+    c.cov.update({"iterator_next_calls_predicted_vs_echoed": nx})
+    c.cov.update({"error_recovery_twin_runs": stats.get("twin", {})})
     nontrivial = sum(1 for h in hs if any(l.startswith("proc") for l in h))
     c.cov.update({"evaluations": n + ncorp, "distinct_nontrivial": len(distinct),
                   "rule": "random call histories (6-%d calls) over one decoder; distinct = distinct call lists; every history "
@@ -1908,5 +2379,25 @@ def replay(c, path):
     prepare_scratch(c.scratch)
     obj = json.loads(open(path).read())
     stats = new_stats()
-    judge(c, binp, obj["ops"], "replay", stats, shrink=False)
+    if "blk_ops" in obj:
+        import shutil
+        dst = os.path.join(str(c.scratch), "h_c09blk")
+        shutil.copy2(str(vlib.build_harness("h_c09blk")), dst)
+        rc, lines, err, mlines = run_blk(dst, obj["blk_ops"])
+        f = blk_failure(rc, lines, err, mlines, len(obj["blk_ops"]))
+        c.oblige("blkarray_list op sequence replays like the model, without report (replay)", f is None, f)
+        if f is not None:
+            c.violation(dict(obj, failure=f[0], detail=f[2], implementation_violates_property=f[1]), f[1],
+                        finding_key=("blkarray:" + f[0]) if f[1] else None)
+        c.cov.update({"evaluations": 1, "distinct_nontrivial": 1})
+        return
+    if judge(c, binp, obj["ops"], "replay", stats, shrink=False):
+        # the error-recovery comparison of `check`: the history against its twin without the refused calls
+        rc, tr, err = run_history(binp, obj["ops"])
+        div, classes = compare(tr)
+        res = twin_check(binp, obj["ops"], tr, classes) if not div else None
+        if res is not None and res[1] is not None:
+            c.oblige("error recovery: the history behaves like its twin without the refused calls (replay)", False, res[1])
+            c.violation({"kind": "API call history and its twin without the refused calls", "ops": obj["ops"],
+                         "twin_difference": res[1], "implementation_violates_property": res[2]}, res[2], tag="twin")
     c.cov.update({"evaluations": 1, "distinct_nontrivial": 1})
